@@ -493,7 +493,11 @@ func commentTokens(texts []string) []string {
 	return out
 }
 
-func checkFile(c fileCase) error {
+func checkFile(c fileCase) error { return checkFileX(c, true) }
+
+func probeFile(c fileCase) error { return checkFileX(c, false) }
+
+func checkFileX(c fileCase, exclude bool) error {
 	raw, err := rt.Render(&recipe.Builder{}, c.file(true))
 	if err != nil {
 		return fmt.Errorf("NoFormat render failed: %v", err)
@@ -520,11 +524,36 @@ func checkFile(c fileCase) error {
 			return fmt.Errorf("comment %d is %q, want %q", i, cmts[i], want[i])
 		}
 	}
-	// structure, on the formatted output
+	// structure: on the raw output always; on the formatted output unless the case is in the
+	// input class of known finding KF2
+	if err := c.structure(raw, "raw"); err != nil {
+		return err
+	}
+	if exclude && c.inKF2() {
+		return nil
+	}
+	return c.structure(out, "formatted")
+}
+
+// inKF2 is the input class of known finding KF2: a header or package comment whose text holds a
+// form feed or a carriage return. go/printer counts a form feed inside a comment as a line break
+// and strips carriage returns, so its line accounting is off by the time it reaches the package
+// clause: the blank line after the headers disappears (the header becomes package doc) or `*/` and
+// `package` end up on one line (the doc is detached). gofmt does the same to a hand-written file.
+func (c fileCase) inKF2() bool {
+	for _, t := range append(append([]string{}, c.Headers...), c.Package...) {
+		if strings.ContainsAny(t, "\r\f") {
+			return true
+		}
+	}
+	return false
+}
+
+func (c fileCase) structure(out []byte, label string) error {
 	fset := token.NewFileSet()
 	f, err := parser.ParseFile(fset, "", out, parser.ParseComments)
 	if err != nil {
-		return fmt.Errorf("formatted output does not parse: %v", err)
+		return fmt.Errorf("%s output does not parse: %v", label, err)
 	}
 	if (f.Doc != nil) != (len(c.Package) > 0) {
 		return fmt.Errorf("package doc present=%v but %d package comments were given\n%s", f.Doc != nil, len(c.Package), out)
@@ -657,7 +686,6 @@ func genFileComment(t *rapid.T, marker string) string {
 	}
 }
 
-
 func TestC15(t *testing.T) {
 	r := hx.Start(t, "C15")
 	defer r.Finish(t)
@@ -781,6 +809,7 @@ func TestC15(t *testing.T) {
 		return c
 	})
 
+	hx.Replay(r, hx.Check[fileCase]{Name: "known_finding_probe", Fn: probeFile})
 	hx.Rapid(r, t, hx.Check[fileCase]{Name: "file_level", Fn: checkFile}, r.N(1000, 10000), func(rt2 *rapid.T) fileCase {
 		c := fileCase{Body: rapid.Bool().Draw(rt2, "body")}
 		for i, n := 0, rapid.IntRange(0, 4).Draw(rt2, "nheaders"); i < n; i++ {
@@ -798,6 +827,9 @@ func TestC15(t *testing.T) {
 		}
 		if len(c.Headers) > 0 || len(c.Package) > 0 || c.Canonical != "" {
 			r.NonTrivial(fmt.Sprintf("%+v", c))
+		}
+		if c.inKF2() {
+			r.ExcludedKnown() // raw-output checks still run; the formatted-structure part is not judged
 		}
 		r.Class(fmt.Sprintf("headers_%d_pkg_%d", min(len(c.Headers), 2), min(len(c.Package), 2)))
 		return c
